@@ -411,7 +411,7 @@ class ControlUnderlyings(Lemma):
     written on the whole spot vector: every control is evaluated from the product's payoff underlying of THIS path (its own
     component), through the four-argument call the engine makes."""
     prop = "C07"
-    cases = (2, 3, "same-class-other-term")
+    cases = (2, 3, "same-class-other-term", "same-class-same-term")
 
     def __init__(self):
         self.name = "property:controls-on-the-nth-spot"
@@ -420,6 +420,8 @@ class ControlUnderlyings(Lemma):
         from pyvc.sym import PyRaise
         if d == "same-class-other-term":
             return self.prove_same_class(vc)
+        if d == "same-class-same-term":
+            return self.prove_same_class(vc, same=True)
         nm = f"{self.name}[{d} names]"
         it = vc.interp
         UND = "rpylib.product.underlying:"
@@ -428,7 +430,7 @@ class ControlUnderlyings(Lemma):
         it.hooks["rpylib.product.product:Product.__call__"] = lambda it_, f, b: pay(b["self"].fields["tag"], [v for k_, v in b.items() if k_ != "self"][0])
         prods = [vc.obj("rpylib.product.product:Product", payoff_underlying=vc.new(UND + "NthSpot", k + 1), tag=k) for k in range(d)]
         cv = vc.obj("rpylib.product.product:ControlVariates", products=prods, prices=[0.0] * d, nb_cvs=d, _underlying_functions=[])
-        vc.method(cv, "initialisation", it.get_class(UND + "Spot"))
+        vc.method(cv, "initialisation", vc.new(UND + "Spot"))          # the payoff underlying OBJECT of the priced product
         pu = np.array(vc.reals("spot_at_maturity", d), dtype=object)
         times = np.array([0.0, 1.0])
         path = np.array(vc.reals("path", 2 * d), dtype=object).reshape(d, 2)
@@ -442,10 +444,12 @@ class ControlUnderlyings(Lemma):
         for k in range(min(d, len(res))):
             vc.check(nm + f"::control{k}-is-its-own-product-on-its-own-component", compare(res[k], pay(k, pu[k]), "=="))
 
-    def prove_same_class(self, vc):
+    def prove_same_class(self, vc, same=False):
         """the priced product is written on the FIRST spot, the control on the SECOND one (same underlying class, other term):
-        the control must be evaluated on its own component of the path, not on the product's payoff underlying"""
-        nm = f"{self.name}[product on NthSpot(1), control on NthSpot(2)]"
+        the control must be evaluated on its own component of the path, not on the product's payoff underlying;  same=True:
+        both on the second spot -- whichever route the code takes (re-use of the product's payoff underlying or its own
+        evaluation) the control is valued on the second spot of this path"""
+        nm = f"{self.name}[product on NthSpot({2 if same else 1}), control on NthSpot(2)]"
         it = vc.interp
         UND = "rpylib.product.underlying:"
         PAYK = z3.Function("CONTROL_PRODUCT_PAYOFF", z3.IntSort(), z3.RealSort(), z3.RealSort())
@@ -455,8 +459,8 @@ class ControlUnderlyings(Lemma):
         own = vc.real("value_of_the_second_spot")
         it.hooks[UND + "NthSpot.value"] = lambda it_, f, b: own if b["self"] is ctrl else vc.real("value_of_the_first_spot")
         cv = vc.obj("rpylib.product.product:ControlVariates", products=[vc.obj("rpylib.product.product:Product", payoff_underlying=ctrl, tag=0)], prices=[0.0], nb_cvs=1, _underlying_functions=[])
-        vc.method(cv, "initialisation", it.get_class(UND + "NthSpot"))
-        pu = vc.real("payoff_underlying_of_the_priced_product")
+        vc.method(cv, "initialisation", vc.new(UND + "NthSpot", 2 if same else 1))
+        pu = own if same else vc.real("payoff_underlying_of_the_priced_product")     # same underlying: the engine hands over its value on this path
         path = np.array(vc.reals("path", 4), dtype=object).reshape(2, 2)
         res = list(np.ravel(np.asarray(vc.method(cv, "process", np.array([0.0, 1.0]), path, path, pu), dtype=object)))
         vc.check(nm + "::control-is-evaluated-on-its-own-underlying", len(res) == 1 and compare(res[0], pay(0, own), "=="))
@@ -465,9 +469,16 @@ class ControlUnderlyings(Lemma):
         from rpylib.product.product import Product, ControlVariates
         from rpylib.product.underlying import NthSpot, Spot
         from rpylib.product.payoff import Vanilla, PayoffType
+        if d == "same-class-same-term":
+            cvx = ControlVariates([Product(payoff_underlying=NthSpot(2), payoff=Vanilla(strike=1.0, payoff_type=PayoffType.CALL), maturity=1.0)], [0.1])
+            cvx.initialisation(NthSpot(2))
+            path = np.array([[1.0, 1.5], [1.0, 2.5]])
+            pu = NthSpot(2).value(np.array([0.0, 1.0]), path, path)
+            got = float(np.ravel(cvx.process(np.array([0.0, 1.0]), path, path, pu))[0])
+            return (abs(got - 1.5) > 1e-12, {"terminal_spots": [1.5, 2.5], "control_on_the_second_spot": got, "its_own_payoff": 1.5})
         if d == "same-class-other-term":
             cvx = ControlVariates([Product(payoff_underlying=NthSpot(2), payoff=Vanilla(strike=1.0, payoff_type=PayoffType.CALL), maturity=1.0)], [0.1])
-            cvx.initialisation(NthSpot)
+            cvx.initialisation(NthSpot(1))
             path = np.array([[1.0, 1.5], [1.0, 2.5]])        # identity representation: the path holds the spots themselves
             pu = NthSpot(1).value(np.array([0.0, 1.0]), path, path)
             got = float(np.ravel(cvx.process(np.array([0.0, 1.0]), path, path, pu))[0])
@@ -476,7 +487,7 @@ class ControlUnderlyings(Lemma):
             return (abs(got - want) > 1e-12, {"terminal_spots": [1.5, 2.5], "control_on_the_second_spot": got, "its_own_payoff": want})
         prods = [Product(payoff_underlying=NthSpot(k + 1), payoff=Vanilla(strike=1.0, payoff_type=PayoffType.CALL), maturity=1.0) for k in range(d)]
         cv = ControlVariates(prods, [0.1] * d)
-        cv.initialisation(Spot)
+        cv.initialisation(Spot())
         pu = np.array([1.5 + k for k in range(d)])
         path = np.log(np.stack([np.ones(d), pu], axis=1))
         try:
